@@ -141,6 +141,9 @@ func (ev *Evaluator) tick(pos token.Pos) {
 
 // CallFunc interprets a repository function on the given argument values.
 func (ev *Evaluator) CallFunc(fn *types.Func, args ...Value) (res Value, err error) {
+	if ev.depth == 0 {
+		ev.steps = 0 // the budget is per top-level call
+	}
 	err = ev.Try(func() {
 		res = ev.callTypesFunc(token.NoPos, fn, nil, args)
 	})
@@ -149,6 +152,9 @@ func (ev *Evaluator) CallFunc(fn *types.Func, args ...Value) (res Value, err err
 
 // CallMethod interprets a repository method on the given receiver.
 func (ev *Evaluator) CallMethod(fn *types.Func, recv Value, args ...Value) (res Value, err error) {
+	if ev.depth == 0 {
+		ev.steps = 0
+	}
 	err = ev.Try(func() {
 		res = ev.callTypesFunc(token.NoPos, fn, recv, args)
 	})
@@ -373,6 +379,9 @@ func (ev *Evaluator) expr(env *Env, e ast.Expr) Value {
 			}
 		}
 		x := ev.resolve(ev.expr(env, e.X))
+		if r, ok := x.(*Ref); ok {
+			x = r.Get() // indexing through a pointer to an array
+		}
 		idx := ev.resolve(ev.expr(env, e.Index))
 		v, _ := ev.index(e.Pos(), x, idx, info.TypeOf(e))
 		return v
@@ -924,6 +933,9 @@ func (ev *Evaluator) index(pos token.Pos, x, idx Value, t types.Type) (Value, bo
 
 func (ev *Evaluator) sliceExpr(env *Env, e *ast.SliceExpr) Value {
 	x := ev.resolve(ev.expr(env, e.X))
+	if r, ok := x.(*Ref); ok {
+		x = r.Get()
+	}
 	var lo, hi *Lin
 	if e.Low != nil {
 		l, ok := ev.resolve(ev.expr(env, e.Low)).(Lin)
@@ -1233,7 +1245,9 @@ func (ev *Evaluator) call(env *Env, e *ast.CallExpr) Value {
 				// pointer receiver on addressable value: pass a reference
 				if sig := fn.Type().(*types.Signature); sig.Recv() != nil {
 					if _, isPtr := sig.Recv().Type().(*types.Pointer); isPtr {
-						if _, already := recv.(*Ref); !already {
+						if _, already := recv.(*Ref); !already && fn.FullName()[:19] == "(*strings.Builder)." {
+							recv = ev.lvalue(env, sel.X) // the builder's contents replace the variable's value
+						} else if !already {
 							holder := recv
 							recv = &Ref{Get: func() Value { return holder }, Set: func(v Value) { holder = v }}
 						}
@@ -1838,6 +1852,64 @@ func (ev *Evaluator) native(pos token.Pos, fn *types.Func, recv Value, args []Va
 	case "math.Inf":
 		sign, _ := args[0].(Lin)
 		return FConst(math.Inf(int(sign.C))), true
+	case "(*strings.Builder).WriteString", "(*strings.Builder).WriteByte", "(*strings.Builder).WriteRune", "(*strings.Builder).Write",
+		"(*strings.Builder).String", "(*strings.Builder).Len", "(*strings.Builder).Reset", "(*strings.Builder).Grow":
+		r, ok := recv.(*Ref)
+		if !ok {
+			ev.fail(pos, "%s on a non-addressable builder", full)
+		}
+		cur, isStr := r.Get().(Str)
+		if !isStr {
+			cur = S("") // the zero Builder (modelled struct) becomes its string contents
+		}
+		switch full {
+		case "(*strings.Builder).WriteString":
+			r.Set(cur.Concat(argStr(0)))
+			return Tuple{ev.seqLen(pos, args[0]), Nil{}}, true
+		case "(*strings.Builder).WriteByte":
+			l := argLin(0)
+			if l.IsConst() {
+				r.Set(cur.Concat(S(string([]byte{byte(l.C)}))))
+			} else {
+				r.Set(cur.Concat(SSym("chr(" + l.String() + ")")))
+			}
+			return Nil{}, true
+		case "(*strings.Builder).WriteRune":
+			l := argLin(0)
+			if l.IsConst() {
+				r.Set(cur.Concat(S(string(rune(l.C)))))
+			} else {
+				r.Set(cur.Concat(SSym("chr(" + l.String() + ")")))
+			}
+			return Tuple{K(1), Nil{}}, true
+		case "(*strings.Builder).Write":
+			switch b := args[0].(type) {
+			case BytesOf:
+				r.Set(cur.Concat(b.S))
+			case Slice:
+				var sb strings.Builder
+				for _, e := range b.Elems() {
+					l, ok := e.(Lin)
+					if !ok || !l.IsConst() {
+						ev.fail(pos, "Builder.Write of symbolic bytes")
+					}
+					sb.WriteByte(byte(l.C))
+				}
+				r.Set(cur.Concat(S(sb.String())))
+			default:
+				ev.fail(pos, "Builder.Write of %s", Show(b))
+			}
+			return Tuple{K(0), Nil{}}, true
+		case "(*strings.Builder).String":
+			return cur, true
+		case "(*strings.Builder).Len":
+			return ev.seqLen(pos, cur), true
+		case "(*strings.Builder).Reset":
+			r.Set(S(""))
+			return nil, true
+		case "(*strings.Builder).Grow":
+			return nil, true
+		}
 	case "errors.New":
 		return ErrVal{Msg: argStr(0)}, true
 	case "fmt.Errorf", "fmt.Sprintf":
